@@ -105,6 +105,9 @@ def add_source(rng, cfg, src, name):
     return '%s@%s' % (src, 'route' if where == nlev else 'level%d' % where)
 
 
+sh_exotic = [0]
+
+
 def plant(rng, host, what):
     cfg = copy.deepcopy(host)
     label = what
@@ -117,6 +120,11 @@ def plant(rng, host, what):
         else:
             free = [n for n in ['a', 'b', 'c', 'd', 'e', 'f', 'g'] if n not in offered_names(cfg) and n not in used_names(cfg)]
             name = rng.pick(free)
+            if rng.chance(0.3):
+                # perfectly good parameter names that tooling sometimes treats specially: soft keywords, builtins' names,
+                # underscore-only and dunder-like names, mixed case, digits
+                name = rng.pick(['type', 'match', 'case', '_', '__', 'id', 'list', 'print', 'Name', 'x1', '_private', '__dunder__', 'self_'])
+                sh_exotic[0] += 1
         la = add_source(rng, cfg, a, name)
         lb = add_source(rng, cfg, b, name)
         label = '%s [%s: %s + %s]' % (what, name, la, lb)
@@ -199,6 +207,14 @@ def plan(tier, seed):
 def run_shard(sh, spec):
     rng = Rng(spec['seed'], PROPERTY, spec['label'])
     from .. import gen_di as g
+    sh_exotic[0] = 0
+    try:
+        _run_shard(sh, spec, rng, g)
+    finally:
+        sh.hit('conflict-on-an-unusual-name', sh_exotic[0])
+
+
+def _run_shard(sh, spec, rng, g):
     for h in range(spec['hosts']):
         for what in PLANTINGS:
             host = valid_host(rng)
